@@ -161,8 +161,20 @@ class _Time(object):
         return getattr(_time, name)
 
     def time(self):
+        """The clock is an environment stub: an arbitrary non-negative, non-decreasing instant per call.  The instants
+        are registered inputs (`clock!1`, `clock!2`, ...) so that a counterexample that depends on them is replayed
+        with the same clock (ConcWorld feeds them to `time.time` for callers inside the repository)."""
         if core.active():
-            return fresh_real(core.cur().fresh_name("clock"), register=False)
+            ctx = core.cur()
+            name = ctx.fresh_name("clock")
+            v = fresh_real(name, register=True)
+            n = int(name.split("!")[1])
+            lower = z3.Real("clock!%d" % (n - 1)) if n > 1 else z3.RealVal(0)
+            # a fresh variable bounded from below keeps the path condition satisfiable: no feasibility query is spent
+            ctx.pc.append(to_real(v) >= lower)
+            ctx.model = None
+            ctx.model_at = -1
+            return v
         return _time.time()
 
 
